@@ -25,7 +25,7 @@ def run():
     res.coverage["rule"] = ("one case = an AHB tree with at least one invalid expression (on a group, segment, free-text element or value-pool entry): the real "
                             "validation must not abort, must report the node optional with a hint, and every other node exactly as for the AHB in "
                             "which the invalid expressions are replaced by 'Kann' (both validated by the real code), and as the documented walk; "
-                            f"seeded 1/{80 if thorough else 12} sample of all trees <= {n} nodes over 7 labels; non-trivial = at least 2 nodes")
+                            f"seeded 1/{40 if thorough else 12} sample of all trees <= {n} nodes over {len(labs)} labels; non-trivial = at least 2 nodes")
     return res.finish(work)
 
 
